@@ -102,10 +102,38 @@ func (h *fileHistory) Write(s string) (int, error) {
 		return 0, fmt.Errorf("%w: %s", errOpenHistoryFile, err.Error())
 	}
 
+	// If a previous write was cut short (the process died in the middle of it),
+	// the file does not end with a newline: start this entry on a line of its own.
+	if !endsWithNewline(h.file) {
+		data = append([]byte{'\n'}, data...)
+	}
+
 	_, err = f.Write(append(data, '\n'))
 	f.Close()
 
 	return h.Len(), err
+}
+
+// endsWithNewline returns false only if the file is not empty and its last byte is not a newline.
+func endsWithNewline(filename string) bool {
+	file, err := os.Open(filename)
+	if err != nil {
+		return true
+	}
+
+	defer file.Close()
+
+	info, err := file.Stat()
+	if err != nil || info.Size() == 0 {
+		return true
+	}
+
+	last := make([]byte, 1)
+	if _, err = file.ReadAt(last, info.Size()-1); err != nil {
+		return true
+	}
+
+	return last[0] == '\n'
 }
 
 // GetLine returns a specific line from the history file.
